@@ -11,7 +11,7 @@
    observations, is included in the old residual", which is a local fact about one statement. *)
 From Coq Require Import List NArith ZArith Bool Lia.
 From PM Require Import Base.Bytes Base.Outcome Base.Dec Gen.GenConsts Model.ScriptAst Model.Enqueue Model.Script
-  Spec.ScriptSem Proofs.ScriptProofs Proofs.DeviceStmt.
+  Spec.ScriptSem Proofs.ScriptProofs.
 Import ListNotations.
 Local Open Scope Z_scope.
 
